@@ -233,7 +233,9 @@ func (res *CheckResult) Evidence(opt CheckOpts, cmdline string) map[string]inter
 			}
 		}
 		for c := range ctx.Callees {
-			if ct := ctx.E.Specs.Contracts[c]; ct != nil && ct.Trusted {
+			if v := ctx.E.Specs.Views[ctx.Fn.Pkg.Pkg.Path()+"|"+c]; v != nil {
+				trusted["trusted abstract view (assumed at this package's call sites): "+c] = true
+			} else if ct := ctx.E.Specs.Contracts[c]; ct != nil && ct.Trusted {
 				trusted["trusted contract (assumed, body not verified): "+c] = true
 			} else if ct == nil {
 				uncontracted[c] = true
